@@ -8,16 +8,16 @@ src/eval.rs `eval`, `eval_toplevel_exprs(_then_stop)`, `eval_tests_until_error`,
 Session state = the evaluator state (`Machine.State`: the call stack PERSISTS between requests,
 the loaded functions / enums live in `prog`) + the table of loaded tests.
 A request is what `handle_request` receives, with the source text already parsed by the REAL parser
-(the harness passes the `astx` tree), the REPL command already split by `parseCommand` below
-(`Command::from_string`), whose vocabulary is `Tables.replCommands` (regenerated from the Rust).
+(the harness passes the `astx` tree), the REPL command split by `classify` below
+(`parse_command` / `Command::from_string`), whose vocabulary is `Tables.replCommands` (regenerated from the Rust).
 
 Every `expect` / `unwrap` / index on the modelled path is an explicit outcome:
 `sessionPanic` for sites in json_session.rs / commands.rs / env.rs, `evalPanic` for sites inside
 `eval` (a `Machine.step` panic). Running user code is `Machine.step` iterated with fuel
 (`outOfFuel` is its own outcome: non-termination of user code is out of scope).
 
-`Cfg` selects the code being described: `Cfg.pinned` = /repo HEAD, `Cfg.patched` = HEAD + the four
-`session-fix-*` patches (the theorems are about `patched`; the defects are witnessed on `pinned`).
+`Cfg` selects the code being described: `Cfg.pinned` = /repo HEAD, `Cfg.patched` = HEAD + the
+`/verif/patches/session-fix-*.diff` patches (the theorems are about `patched`; the defects are witnessed on `pinned`).
 
 Import-free apart from M4 and the generated tables (the driver links it).
 -/
@@ -26,14 +26,14 @@ open Machine
 
 /-- Which of the repairs are applied. -/
 structure Cfg where
-  /-- session-fix-skip-idle: `:skip` with nothing pending answers a message (HEAD: `expect` panic) -/
+  /-- session-fix-skip-replace-idle.diff: `:skip` with nothing pending answers a message (HEAD: `expect` panic) -/
   skipGuard : Bool
-  /-- session-fix-replace-idle: `:replace` with nothing pending answers a message and never pops the
+  /-- session-fix-skip-replace-idle.diff: `:replace` with nothing pending answers a message and never pops the
   frame's last (placeholder) value (HEAD: pops one value unconditionally) -/
   replaceGuard : Bool
-  /-- session-fix-abort-clears-pending: `pop_to_toplevel` clears frame 0's `exprs_to_eval` -/
+  /-- session-fix-abort-clears-pending.diff: `pop_to_toplevel` clears frame 0's `exprs_to_eval` -/
   abortClears : Bool
-  /-- session-fix-if-match-restore: a failing `if` condition / `match` pops the continuation it had
+  /-- session-fix-if-match-restore.diff: a failing `if` condition / `match` pops the continuation it had
   pushed, `match` restores its scrutinee -/
   ifMatchRestore : Bool
   deriving DecidableEq, Repr
